@@ -22,7 +22,7 @@ def scratch():
     return d
 
 def run_check(pid, repo, tier):
-    e = dict(os.environ, VERIF_REPO=repo)
+    e = dict(os.environ, VERIF_REPO=repo, BCV_REPLAY_DIR=os.path.join(repo, "replays"))
     p = subprocess.run([os.path.join(HERE, "check"), pid, "--tier", tier, "--no-evidence"], env=e, capture_output=True, text=True)
     return p.returncode, p.stdout, p.stderr
 
